@@ -68,6 +68,7 @@ class ObsSocket:
     """Scripted daemon side of the observation socket.
 
     mode: 'valid'   -> write the payload, close (what observer.rs does)
+          'chunked' -> the payload in several writes with pauses, close
           'trunc'   -> write the first half of the payload, close
           'invalid' -> write bytes that are not JSON of an ObservableState, close
           'early'   -> accept and close without writing
@@ -128,6 +129,14 @@ class ObsSocket:
             c.setblocking(True)
             if self.mode == "valid":
                 c.sendall(self.payload)
+            elif self.mode == "chunked":
+                # the same bytes, delivered in several writes with pauses (the reader sees
+                # several reads before EOF)
+                n = len(self.payload)
+                cuts = sorted(set([0, 1, n // 7, n // 3, n // 2, (2 * n) // 3 + 1, max(n - 5, 0), n]))
+                for a, b in zip(cuts, cuts[1:]):
+                    c.sendall(self.payload[a:b])
+                    time.sleep(0.002)
             elif self.mode == "trunc":
                 c.sendall(self.payload[: len(self.payload) // 2])
             elif self.mode == "invalid":
